@@ -68,13 +68,10 @@ theorem eq_trans (h : LawfulCmp c) {a b d : α} (hab : c a b = .eq) (hbd : c b d
 
 /-- comparing a natural-number key -/
 theorem ofKey (f : α → Nat) : LawfulCmp (fun a b => compare (f a) (f b)) where
-  swap a b := by
-    simp only [Nat.compare_def_lt]
-    split <;> split <;> simp_all [Ordering.swap] <;> omega
+  swap a b := Nat.compare_swap (f a) (f b)
   trans a b d := by
-    simp only [Nat.compare_def_lt]
-    intro h1 h2
-    split at h1 <;> split at h2 <;> split <;> simp_all <;> omega
+    simp only [ne_eq, Nat.compare_ne_gt]
+    omega
 
 /-- the reversed comparator is lawful too -/
 theorem flip (h : LawfulCmp c) : LawfulCmp (fun a b => c b a) where
@@ -90,7 +87,8 @@ theorem thenCmp {c1 c2 : α → α → Ordering} (h1 : LawfulCmp c1) (h2 : Lawfu
   swap a b := by
     have s1 := h1.swap a b
     have s2 := h2.swap a b
-    cases h : c1 a b <;> rw [h] at s1 <;> simp [Ordering.then, Ordering.swap] at s1 ⊢ <;> rw [← s1] <;> simp [Ordering.then, s2]
+    rw [← s1, ← s2]
+    cases c1 a b <;> simp [Ordering.then, Ordering.swap]
   trans a b d hab hbd := by
     cases e1 : c1 a b <;> cases e2 : c1 b d <;> simp only [e1, e2, Ordering.then] at hab hbd
     · -- lt, lt
@@ -104,6 +102,258 @@ theorem thenCmp {c1 c2 : α → α → Ordering} (h1 : LawfulCmp c1) (h2 : Lawfu
     · exact absurd rfl hab
     · exact absurd rfl hab
 
+
+/-- pulling a lawful comparator back along a key function -/
+theorem comap {β : Type} {c : β → β → Ordering} (h : LawfulCmp c) (f : α → β) :
+    LawfulCmp (fun a b => c (f a) (f b)) where
+  swap a b := h.swap (f a) (f b)
+  trans a b d := h.trans (f a) (f b) (f d)
+
 end LawfulCmp
+
+/-! ## The rank key: the comparator is a lexicographic comparison of nine numbers -/
+
+/-- What `impl Ord for RibEntry` / `evpn_type2_cmp` look at, as numbers. -/
+structure RKey where
+  /-- 0 = no MAC mobility (or not a type-2 route), `seq + 1` otherwise -/
+  mm : Nat
+  llgr : Nat
+  lp : Nat
+  aslen : Nat
+  origin : Nat
+  ebgp : Nat
+  stale : Nat
+  cluster : Nat
+  oid : Nat
+  deriving DecidableEq, Repr
+
+def mmRank : Option Nat → Nat
+  | some x => x + 1
+  | none => 0
+
+def rkey (fl : Flags) (t2 : Bool) (e : Entry) : RKey :=
+  { mm := if t2 then mmRank e.attr.mm else 0
+    llgr := (e.isLlgr fl).toNat
+    lp := e.attr.localPref
+    aslen := e.aslen
+    origin := e.attr.originV
+    ebgp := e.src.role.prefersOverIbgp.toNat
+    stale := (e.isStale fl).toNat
+    cluster := e.attr.clusterLen
+    oid := e.originatorId }
+
+/-- lexicographic comparison of rank keys; higher `mm`, `lp`, `ebgp` are better -/
+def cmpK (x y : RKey) : Ordering :=
+  (compare y.mm x.mm).then <|
+  (compare x.llgr y.llgr).then <|
+  (compare y.lp x.lp).then <|
+  (compare x.aslen y.aslen).then <|
+  (compare x.origin y.origin).then <|
+  (compare y.ebgp x.ebgp).then <|
+  (compare x.stale y.stale).then <|
+  (compare x.cluster y.cluster).then <|
+  (compare x.oid y.oid)
+
+theorem cmpK_lawful : LawfulCmp cmpK := by
+  unfold cmpK
+  exact (LawfulCmp.ofKeyRev RKey.mm).thenCmp <|
+    (LawfulCmp.ofKey RKey.llgr).thenCmp <|
+    (LawfulCmp.ofKeyRev RKey.lp).thenCmp <|
+    (LawfulCmp.ofKey RKey.aslen).thenCmp <|
+    (LawfulCmp.ofKey RKey.origin).thenCmp <|
+    (LawfulCmp.ofKeyRev RKey.ebgp).thenCmp <|
+    (LawfulCmp.ofKey RKey.stale).thenCmp <|
+    (LawfulCmp.ofKey RKey.cluster).thenCmp <|
+    (LawfulCmp.ofKey RKey.oid)
+
+theorem then_eq_eq {a b : Ordering} : a.then b = .eq ↔ a = .eq ∧ b = .eq := by
+  cases a <;> simp [Ordering.then]
+
+/-- ties are exactly equal keys -/
+theorem cmpK_eq_iff (x y : RKey) : cmpK x y = .eq ↔ x = y := by
+  constructor
+  · intro h
+    simp only [cmpK, then_eq_eq, Nat.compare_eq_eq] at h
+    obtain ⟨h1, h2, h3, h4, h5, h6, h7, h8, h9⟩ := h
+    cases x; cases y; simp_all
+  · intro h; subst h; exact cmpK_lawful.refl x
+
+theorem cmpEntry_eq_cmpK (fl : Flags) (a b : Entry) :
+    cmpEntry fl a b = cmpK (rkey fl false a) (rkey fl false b) := by
+  simp [cmpEntry, cmpK, rkey, cmpBool, Ordering.then]
+
+theorem compare_succ_succ (x y : Nat) : compare (y + 1) (x + 1) = compare y x := by
+  rcases Nat.lt_trichotomy y x with h | h | h
+  · rw [Nat.compare_eq_lt.mpr h, Nat.compare_eq_lt.mpr (by omega)]
+  · rw [Nat.compare_eq_eq.mpr h, Nat.compare_eq_eq.mpr (by omega)]
+  · rw [Nat.compare_eq_gt.mpr h, Nat.compare_eq_gt.mpr (by omega)]
+
+theorem cmpK_mm (x y : RKey) :
+    cmpK x y = (compare y.mm x.mm).then (cmpK { x with mm := 0 } { y with mm := 0 }) := by
+  simp [cmpK, Ordering.then]
+
+theorem cmpEvpn_eq_cmpK (fl : Flags) (a b : Entry) :
+    cmpEvpn fl a b = cmpK (rkey fl true a) (rkey fl true b) := by
+  rw [cmpK_mm]
+  have h : cmpK { rkey fl true a with mm := 0 } { rkey fl true b with mm := 0 } = cmpEntry fl a b := by
+    rw [cmpEntry_eq_cmpK]; rfl
+  rw [h]
+  simp only [cmpEvpn, rkey, if_true]
+  cases ha : a.attr.mm <;> cases hb : b.attr.mm <;> simp only [mmRank]
+  · simp [Ordering.then]
+  · rw [Nat.compare_eq_gt.mpr (by omega)]; rfl
+  · rw [Nat.compare_eq_lt.mpr (by omega)]; rfl
+  · rw [compare_succ_succ]
+
+theorem cmpFor_eq_cmpK (fl : Flags) (t2 : Bool) (a b : Entry) :
+    cmpFor fl t2 a b = cmpK (rkey fl t2 a) (rkey fl t2 b) := by
+  cases t2
+  · simpa [cmpFor] using cmpEntry_eq_cmpK fl a b
+  · simpa [cmpFor] using cmpEvpn_eq_cmpK fl a b
+
+/-- **cmp_lawful** (helper form): the model comparator is a total preorder. -/
+theorem cmpFor_lawful (fl : Flags) (t2 : Bool) : LawfulCmp (cmpFor fl t2) := by
+  have h := cmpK_lawful.comap (rkey fl t2)
+  have e : cmpFor fl t2 = fun a b => cmpK (rkey fl t2 a) (rkey fl t2 b) := by
+    funext a b; exact cmpFor_eq_cmpK fl t2 a b
+  rw [e]; exact h
+
+theorem cmpFor_eq_iff (fl : Flags) (t2 : Bool) (a b : Entry) :
+    cmpFor fl t2 a b = .eq ↔ rkey fl t2 a = rkey fl t2 b := by
+  rw [cmpFor_eq_cmpK, cmpK_eq_iff]
+
+/-- The comparator looks at the flag sets only through the two entries' own source ids. -/
+theorem rkey_congr {fl fl' : Flags} (t2 : Bool) (e : Entry)
+    (hs : fl.stale.contains e.src.id = fl'.stale.contains e.src.id)
+    (hl : fl.llgr.contains e.src.id = fl'.llgr.contains e.src.id) : rkey fl t2 e = rkey fl' t2 e := by
+  simp only [rkey, Entry.isLlgr, Entry.isStale, hs, hl]
+
+/-! ## Ranked lists -/
+
+/-- best first: no later element is strictly better than an earlier one -/
+def Sorted (c : Entry → Entry → Ordering) (l : List Entry) : Prop := l.Pairwise fun a b => c a b ≠ .gt
+
+theorem Sorted.sublist {c} {l l' : List Entry} (h : Sorted c l) (hs : l'.Sublist l) : Sorted c l' :=
+  List.Pairwise.sublist hs h
+
+theorem insertSorted_perm (c : Entry → Entry → Ordering) (e : Entry) (l : List Entry) :
+    (insertSorted c e l).Perm (e :: l) := by
+  induction l with
+  | nil => simp [insertSorted]
+  | cons a l ih =>
+    simp only [insertSorted]
+    split
+    · exact (List.Perm.cons a ih).trans (List.Perm.swap e a l)
+    · exact List.Perm.refl _
+
+theorem mem_insertSorted {c : Entry → Entry → Ordering} {e x : Entry} {l : List Entry} :
+    x ∈ insertSorted c e l ↔ x = e ∨ x ∈ l := by
+  rw [(insertSorted_perm c e l).mem_iff]; simp
+
+/-- **insert_preserves_sorted** (helper form) -/
+theorem insertSorted_sorted {c : Entry → Entry → Ordering} (hc : LawfulCmp c) (e : Entry) {l : List Entry}
+    (h : Sorted c l) : Sorted c (insertSorted c e l) := by
+  induction l with
+  | nil => simp [insertSorted, Sorted]
+  | cons a l ih =>
+    simp only [Sorted, List.pairwise_cons] at h
+    simp only [insertSorted]
+    split
+    · -- e is not better than a: a stays in front
+      rename_i hge
+      have hae : c a e ≠ .gt := by
+        intro hgt
+        have := hc.lt_of_gt hgt
+        simp [this] at hge
+      simp only [Sorted, List.pairwise_cons]
+      refine ⟨?_, ih h.2⟩
+      intro x hx
+      rcases mem_insertSorted.mp hx with rfl | hx
+      · exact hae
+      · exact h.1 x hx
+    · rename_i hlt
+      have hea : c e a = .lt := by
+        cases hh : c e a <;> simp_all
+      simp only [Sorted, List.pairwise_cons]
+      refine ⟨?_, h.1, h.2⟩
+      intro x hx
+      rcases List.mem_cons.mp hx with rfl | hx
+      · rw [hea]; simp
+      · have := hc.lt_of_lt_of_le hea (h.1 x hx); rw [this]; simp
+
+theorem sortBy_perm_aux (c : Entry → Entry → Ordering) (l acc : List Entry) :
+    (l.foldl (fun acc x => insertSorted c x acc) acc).Perm (l ++ acc) := by
+  induction l generalizing acc with
+  | nil => simp
+  | cons x l ih =>
+    simp only [List.foldl_cons]
+    refine (ih _).trans ?_
+    refine (List.Perm.append_left l (insertSorted_perm c x acc)).trans ?_
+    simp
+
+theorem sortBy_perm (c : Entry → Entry → Ordering) (l : List Entry) : (sortBy c l).Perm l := by
+  simpa [sortBy] using sortBy_perm_aux c l []
+
+theorem sortBy_sorted_aux {c : Entry → Entry → Ordering} (hc : LawfulCmp c) (l acc : List Entry)
+    (h : Sorted c acc) : Sorted c (l.foldl (fun acc x => insertSorted c x acc) acc) := by
+  induction l generalizing acc with
+  | nil => simpa
+  | cons x l ih => exact ih _ (insertSorted_sorted hc x h)
+
+/-- **resort_sorted** (helper form) -/
+theorem sortBy_sorted {c : Entry → Entry → Ordering} (hc : LawfulCmp c) (l : List Entry) : Sorted c (sortBy c l) :=
+  sortBy_sorted_aux hc l [] (by simp [Sorted])
+
+theorem mem_sortBy {c : Entry → Entry → Ordering} {x : Entry} {l : List Entry} : x ∈ sortBy c l ↔ x ∈ l :=
+  (sortBy_perm c l).mem_iff
+
+/-- A ranked list stays ranked when the comparator changes only on pairs that do not occur in it. -/
+theorem Sorted.congr {c c' : Entry → Entry → Ordering} {l : List Entry} (h : Sorted c l)
+    (hcc : ∀ a ∈ l, ∀ b ∈ l, c a b = c' a b) : Sorted c' l := by
+  induction l with
+  | nil => simp [Sorted]
+  | cons a l ih =>
+    simp only [Sorted, List.pairwise_cons] at h ⊢
+    refine ⟨fun x hx => ?_, ih h.2 (fun a ha b hb => hcc a (List.mem_cons_of_mem _ ha) b (List.mem_cons_of_mem _ hb))⟩
+    rw [← hcc a (List.mem_cons_self) x (List.mem_cons_of_mem _ hx)]
+    exact h.1 x hx
+
+/-! ## Two rankings of the same set have the same key sequence -/
+
+theorem perm_eq_of_sorted {β : Type} (le : β → β → Prop) (antisymm : ∀ a b, le a b → le b a → a = b)
+    (l₁ l₂ : List β) (h₁ : l₁.Pairwise le) (h₂ : l₂.Pairwise le) (hp : l₁.Perm l₂) : l₁ = l₂ := by
+  induction l₁ generalizing l₂ with
+  | nil => exact (List.Perm.nil_eq hp)
+  | cons a t₁ ih =>
+    cases l₂ with
+    | nil => exact absurd hp.symm (List.Perm.nil_eq · |> fun h => by simp at h)
+    | cons b t₂ =>
+      have hab : a = b := by
+        have hb : b ∈ a :: t₁ := hp.symm.mem_iff.mp List.mem_cons_self
+        have ha : a ∈ b :: t₂ := hp.mem_iff.mp List.mem_cons_self
+        rcases List.mem_cons.mp hb with h | hb'
+        · exact h.symm
+        · rcases List.mem_cons.mp ha with h | ha'
+          · exact h
+          · exact antisymm a b ((List.pairwise_cons.mp h₁).1 b hb') ((List.pairwise_cons.mp h₂).1 a ha')
+      subst hab
+      rw [ih t₂ (List.pairwise_cons.mp h₁).2 (List.pairwise_cons.mp h₂).2 ((List.perm_cons a).mp hp)]
+
+/-- **order_independent** (helper form): two ranked lists that are permutations of each other have
+    the same sequence of rank keys. -/
+theorem sorted_perm_keys_eq (fl : Flags) (t2 : Bool) {l₁ l₂ : List Entry}
+    (h₁ : Sorted (cmpFor fl t2) l₁) (h₂ : Sorted (cmpFor fl t2) l₂) (hp : l₁.Perm l₂) :
+    l₁.map (rkey fl t2) = l₂.map (rkey fl t2) := by
+  apply perm_eq_of_sorted (fun x y => cmpK x y ≠ .gt)
+  · intro x y hxy hyx
+    have : cmpK x y = .eq := by
+      cases h : cmpK x y
+      · rw [cmpK_lawful.gt_of_lt h] at hyx; exact absurd rfl hyx
+      · rfl
+      · exact absurd h hxy
+    exact (cmpK_eq_iff x y).mp this
+  · rw [List.pairwise_map]; exact h₁.imp (by intro a b h; rwa [← cmpFor_eq_cmpK])
+  · rw [List.pairwise_map]; exact h₂.imp (by intro a b h; rwa [← cmpFor_eq_cmpK])
+  · exact hp.map _
 
 end Rbgp.Rib
